@@ -26,7 +26,7 @@
    of the state.  TLC walks the generator by seeded simulation (one program per behaviour, printed at Finish);
    the small _mc configuration is explored exhaustively to check the generator's own invariants (bounds,
    reachability of every action = no dead generator action).  checks/C12.py renders the items to Lua text. *)
-EXTENDS Naturals, Sequences, FiniteSets, TLC, Json
+EXTENDS Integers, Sequences, FiniteSets, TLC, Json
 
 CONSTANTS MaxItems, Levels,
           TypeDepth,    \* 0: a few names only (exhaustive _mc config), 1: one constructor, 2: two constructors
@@ -172,10 +172,26 @@ AddTableLiteral == \E f \in Pick(FilesOf), v \in Pick(Vars), n \in Pick(Classes 
                      Add(TabLit(f, v, CASE tshape = "name" -> N(n) [] tshape = "app" -> Un("app", n, N("integer"))
                                         [] OTHER -> Un("opt", "", N(n)), shape))
 
+\* ---- calls of the std generic helpers with literal index arguments (second seeded round) ----------------------
+\* table.unpack / unpack / select and a hand-written `---@return std.Unpack<T, I, J>` are evaluated by special-cased
+\* generics that slice the element list of a TUPLE-typed operand by the literal integer arguments.  Lua accepts the
+\* indices in any order (`table.unpack(t, 3, 1)` returns nothing), so the generator draws both freely: crossed (I > J),
+\* zero, negative, beyond the length, on tuples of 0..4 elements (annotated `---@type [..]` or an array-like table
+\* literal).  Each item carries the ordered pair and the swapped pair, the driver renders one call per pair.
+Indices == {-4, -1, 0, 1, 2, 3, 4, 5, 9}
+StdCalls == {"table.unpack(v, I, J)", "table.unpack(v, I)", "unpack(v, I, J)", "unpack(v, I)", "up(v)",
+             "{ table.unpack(v, I, J) }", "select(I, table.unpack(v))", "select(I, table.unpack(v, J))",
+             "select(J, table.unpack(v, I, J))", "select('#', table.unpack(v, I, J))", "select(I, v, w, 1)",
+             "table.pack(table.unpack(v, I, J))", "print(table.unpack(v, I, J))", "fa(table.unpack(v, I, J))"}
+AddStdCall == \E f \in Pick(FilesOf), v \in Pick(Vars), call \in Pick(StdCalls), len \in Pick(0..4), i \in Pick(Indices),
+                 j \in Pick(Indices), lit \in Pick(BOOLEAN), t \in Pick(Small), u \in Pick(Small) :
+                Add(Item("stdcall", f, v, call, <<t, u>>, NoT, "")
+                    @@ [len |-> len, lit |-> lit, args |-> << <<i, j>>, <<j, i>> >>, w |-> IF v = "x" THEN "y" ELSE "x"])
+
 Finish == /\ phase = "gen" /\ Len(prog) >= 4
           /\ phase' = "done" /\ UNCHANGED <<prog, level, strict>>
 
-Next == AddAliasSuperCycle \/ AddTableLiteral \/ AddTypedUse \/ AddCyclicSupers \/ AddRecursiveAlias \/ AddGenericCycle \/ AddOverloads \/ AddClass \/ AddAlias \/ AddField \/ AddFunc \/ AddOperator \/ AddLocal \/ AddCast \/ AddUse \/ Corrupt \/ Finish
+Next == AddStdCall \/ AddAliasSuperCycle \/ AddTableLiteral \/ AddTypedUse \/ AddCyclicSupers \/ AddRecursiveAlias \/ AddGenericCycle \/ AddOverloads \/ AddClass \/ AddAlias \/ AddField \/ AddFunc \/ AddOperator \/ AddLocal \/ AddCast \/ AddUse \/ Corrupt \/ Finish
 Spec == Init /\ [][Next]_vars
 
 \* ---- generator invariants -------------------------------------------------------------------------------
@@ -199,10 +215,13 @@ Malformed(p) == \E i \in DOMAIN p : \/ p[i].k = "corrupt"
                                     \/ p[i].g = "<"
                                     \/ \E j \in DOMAIN p[i].t : p[i].t[j].op = "bad"
 
+\* a std helper call whose literal bounds are crossed (I - 1 > J) while I - 1 is still inside the tuple
+StdCrossed(p) == \E k \in DOMAIN p : /\ p[k].k = "stdcall"
+                                      /\ \E q \in 1..2 : LET a == p[k].args[q] IN a[1] >= 1 /\ a[2] >= 0 /\ a[1] - 1 > a[2] /\ a[1] - 1 <= p[k].len
 Emit == phase = "done" =>
           PrintT(<<"CASE", ToJson([level |-> level, strict |-> strict, items |-> prog,
                                    feat |-> [selfsuper |-> SelfSuper(prog), mutualsuper |-> MutualSuper(prog),
                                              recalias |-> RecursiveAlias(prog), malformed |-> Malformed(prog),
-                                             aliassuper |-> AliasSuper(prog), tablit |-> "tablit" \in Kinds(prog),
+                                             aliassuper |-> AliasSuper(prog), tablit |-> "tablit" \in Kinds(prog), stdcall |-> StdCrossed(prog),
                                              kinds |-> Cardinality(Kinds(prog))]])>>)
 =============================================================================
